@@ -192,3 +192,10 @@ prop("C19",
      technique="property-based testing (rapid-drawn sizes) + fixed scaling ladders, metamorphic / growth-rate oracle on instrumented step counts",
      rule="ladder: every family x sizes 4,8,16,32,64 (dense DAG families to 32); implementers: depth family at n in {4,16,48} x m in {2,8,32,128}; rapid: family x n in [5,64] x m in {2,4,16,64} against the cubic envelope. Every case with n >= 8 is non-trivial; distinct by (family, n, m).",
      runs=[dict(test="^TestC19_", quick=dict(checks=300), thorough=dict(checks=3000, shards=4, timeout=3000))])
+
+prop("C07",
+     level_text="concurrency stress under the race detector (rapid-seeded): per case a fresh (cold) schema, one shared prepared plan and one shared plan cache; 2-16 goroutines released by a start barrier each run a drawn script of Do / ValidateDocument / PlanCache.Get+ExecutePlan / ExecutePlan(shared plan) / Reset over queries touching enums (in and out), unions, interfaces and nested abstract fields resolving to different runtime types; oracle = no race report (GORACE=halt_on_error=1, the driver reads the report), no panic, all goroutines finish, and every response equals the response of the same request run alone on a private instance",
+     note="the Go scheduler is not owned: the race detector needs both accesses to occur unordered in the observed run, which first-use initialisation does in practically every case; races that need a rare interleaving of warm state are out of reach (DESIGN §7). A halted process leaves the running case as the replay file; replay repeats the history 20 times.",
+     technique="property-based stress testing (rapid-drawn histories) with the Go race detector and a sequential-baseline differential oracle",
+     rule="Non-trivial = at least two requests were in flight at the same time (measured with atomic start/finish stamps); distinct by case hash.",
+     runs=[dict(test="^TestC07$", race=True, quick=dict(checks=150), thorough=dict(checks=1500, shards=8, timeout=3000))])
